@@ -113,10 +113,10 @@ theorem resolveCallable_ne_nofuel {rec : Frame → Out} {P : Prog} {wh : Where} 
 /-! ### the measure -/
 
 def mu (P : Prog) : Frame → Nat
-  | .entry i => i * P.width + P.width - 1
+  | .entry i => i * P.width + P.width - 3
   | .init r _ ctx => r * P.width + ctx.length + 1
   | .meth o _ => o * P.width
-  | .cmeth o _ => o * P.width + P.width
+  | .cmeth o _ => o * P.width + P.width - 2
 
 def validFrame (P : Prog) : Frame → Prop
   | .entry i => i < P.entries.length
@@ -238,9 +238,9 @@ def whereOK (P : Prog) (wh : Where) (c : Callable) (M : Nat) : Prop :=
   | .init r o ctx => ∃ nM, callableAcyclic .init o nM c = true ∧ r < P.entries.length ∧ o ≤ r ∧
       (∀ x ∈ ctx, x ≤ r) ∧ ctx.length ≤ maxMro P.entries + 1 ∧ r * P.width + ctx.length + 1 ≤ M
   | .meth o => ∃ nM, callableAcyclic .meth o nM c = true ∧ o < P.entries.length ∧ o * P.width ≤ M
-  | .cmeth o => ∃ nM, callableAcyclic .cmeth o nM c = true ∧ o < P.entries.length ∧ o * P.width + P.width ≤ M
+  | .cmeth o => ∃ nM, callableAcyclic .cmeth o nM c = true ∧ o < P.entries.length ∧ o * P.width + P.width - 2 ≤ M
 
-theorem width_pos (P : Prog) : 4 ≤ P.width := by
+theorem width_pos (P : Prog) : 6 ≤ P.width := by
   unfold Prog.width
   omega
 
@@ -250,35 +250,39 @@ theorem entry_lt {P : Prog} {j o : Nat} (h : j < o) : j * P.width + P.width - 1 
   have := width_pos P
   omega
 
+/-- a call of entry `j` / of a classmethod of class `j` from a body that sits at index `s > j` -/
+theorem target_sub {P : Prog} {j s M : Nat} (h : j < s) (hs : s < P.entries.length) (hM : s * P.width ≤ M) :
+    (validFrame P (.entry j) ∧ mu P (.entry j) < M) ∧ ∀ jj, validFrame P (.cmeth j jj) ∧ mu P (.cmeth j jj) < M := by
+  have := entry_lt (P := P) h
+  have := width_pos P
+  refine ⟨⟨by simp only [validFrame]; omega, by simp only [mu]; omega⟩, fun jj => ⟨by simp only [validFrame]; omega, by simp only [mu]; omega⟩⟩
+
 theorem sub_of_whereOK {P : Prog} {wh : Where} {c : Callable} {M : Nat} (hw : whereOK P wh c M)
     {u : Use} (hu : u ∈ liveUses c.uses) {fr : Frame} (hs : subFrame P wh u = some fr) :
     validFrame P fr ∧ mu P fr < M := by
   have hW := width_pos P
-  cases wh with
-  | fn =>
-    obtain ⟨i, hac, hi, hM⟩ := hw
-    have huok := List.all_eq_true.1 hac u hu
-    cases u with
-    | pop n d => simp [subFrame] at hs
-    | get n d => simp [subFrame] at hs
-    | superCall frm k g => simp [subFrame, superFrame] at hs
-    | call t k g =>
-      cases t with
-      | entry j =>
-        simp only [subFrame, targetFrame, Option.some.injEq] at hs
-        subst hs
-        simp only [useOK, decide_eq_true_eq] at huok
-        have := entry_lt (P := P) huok
-        exact ⟨by simp only [validFrame]; omega, by simp only [mu]; omega⟩
-      | selfMeth j => simp [subFrame, targetFrame] at hs
-      | clsSelf => simp [subFrame, targetFrame] at hs
-  | init r o ctx =>
-    obtain ⟨nM, hac, hr, hor, hctx, hlen, hM⟩ := hw
-    have huok := List.all_eq_true.1 hac u hu
-    cases u with
-    | pop n d => simp [subFrame] at hs
-    | get n d => simp [subFrame] at hs
-    | superCall frm k g =>
+  -- the site, the index the body sits at, and the room below the bound
+  have hsite : ∃ site s nM, callableAcyclic site s nM c = true ∧ s < P.entries.length ∧ s * P.width ≤ M := by
+    cases wh with
+    | fn => obtain ⟨i, hac, hi, hM⟩ := hw; exact ⟨_, i, _, hac, hi, hM⟩
+    | init r o ctx =>
+      obtain ⟨nM, hac, hr, hor, _, _, hM⟩ := hw
+      have h2 : o * P.width ≤ r * P.width := Nat.mul_le_mul_right _ hor
+      exact ⟨_, o, nM, hac, by omega, by omega⟩
+    | meth o => obtain ⟨nM, hac, ho, hM⟩ := hw; exact ⟨_, o, nM, hac, ho, hM⟩
+    | cmeth o => obtain ⟨nM, hac, ho, hM⟩ := hw; exact ⟨_, o, nM, hac, ho, by omega⟩
+  obtain ⟨site, s, nM, hac, hsN, hsM⟩ := hsite
+  have huok := List.all_eq_true.1 hac u hu
+  cases u with
+  | pop n d => simp [subFrame] at hs
+  | get n d => simp [subFrame] at hs
+  | superCall frm k g =>
+    cases wh with
+    | fn => simp [subFrame, superFrame] at hs
+    | meth o => simp [subFrame, superFrame] at hs
+    | cmeth o => simp [subFrame, superFrame] at hs
+    | init r o ctx =>
+      obtain ⟨_, _, hr, hor, hctx, hlen, hM⟩ := hw
       simp only [subFrame, superFrame] at hs
       obtain ⟨pre, hd, pre2, d, t, hctxeq, rfl⟩ := superFrameAt_spec hs
       have hlen2 : (d :: t).length < ctx.length := by
@@ -290,55 +294,41 @@ theorem sub_of_whereOK {P : Prog} {wh : Where} {c : Callable} {M : Nat} (hw : wh
         rcases hx with rfl | hx
         · exact Or.inr (Or.inr (Or.inr (Or.inl rfl)))
         · exact Or.inr (Or.inr (Or.inr (Or.inr hx)))
-    | call t k g =>
-      cases t with
-      | entry j =>
+  | call t k g =>
+    cases t with
+    | entry j =>
+      simp only [subFrame, targetFrame, Option.some.injEq] at hs
+      subst hs
+      simp only [useOK, decide_eq_true_eq] at huok
+      exact (target_sub huok hsN hsM).1
+    | attrEntry j =>
+      simp only [subFrame, targetFrame, Option.some.injEq] at hs
+      subst hs
+      simp only [useOK, Bool.and_eq_true, decide_eq_true_eq] at huok
+      exact (target_sub huok.2 hsN hsM).1
+    | classMeth cc jj =>
+      simp only [subFrame, targetFrame, Option.some.injEq] at hs
+      subst hs
+      simp only [useOK, decide_eq_true_eq] at huok
+      exact (target_sub huok hsN hsM).2 jj
+    | selfMeth j =>
+      cases wh with
+      | fn => simp [subFrame, targetFrame] at hs
+      | meth o => simp [subFrame, targetFrame] at hs
+      | cmeth o => simp [subFrame, targetFrame] at hs
+      | init r o ctx =>
+        obtain ⟨_, _, hr, hor, _, _, hM⟩ := hw
         simp only [subFrame, targetFrame, Option.some.injEq] at hs
         subst hs
-        simp only [useOK, decide_eq_true_eq] at huok
-        have h1 := entry_lt (P := P) huok
         have h2 : o * P.width ≤ r * P.width := Nat.mul_le_mul_right _ hor
         exact ⟨by simp only [validFrame]; omega, by simp only [mu]; omega⟩
-      | selfMeth j =>
-        simp only [subFrame, targetFrame, Option.some.injEq] at hs
-        subst hs
-        have h2 : o * P.width ≤ r * P.width := Nat.mul_le_mul_right _ hor
-        exact ⟨by simp only [validFrame]; omega, by simp only [mu]; omega⟩
-      | clsSelf => simp [subFrame, targetFrame] at hs
-  | meth o =>
-    obtain ⟨nM, hac, ho, hM⟩ := hw
-    have huok := List.all_eq_true.1 hac u hu
-    cases u with
-    | pop n d => simp [subFrame] at hs
-    | get n d => simp [subFrame] at hs
-    | superCall frm k g => simp [subFrame, superFrame] at hs
-    | call t k g =>
-      cases t with
-      | entry j =>
-        simp only [subFrame, targetFrame, Option.some.injEq] at hs
-        subst hs
-        simp only [useOK, decide_eq_true_eq] at huok
-        have := entry_lt (P := P) huok
-        exact ⟨by simp only [validFrame]; omega, by simp only [mu]; omega⟩
-      | selfMeth j => simp [subFrame, targetFrame] at hs
-      | clsSelf => simp [subFrame, targetFrame] at hs
-  | cmeth o =>
-    obtain ⟨nM, hac, ho, hM⟩ := hw
-    have huok := List.all_eq_true.1 hac u hu
-    cases u with
-    | pop n d => simp [subFrame] at hs
-    | get n d => simp [subFrame] at hs
-    | superCall frm k g => simp [subFrame, superFrame] at hs
-    | call t k g =>
-      cases t with
-      | entry j =>
-        simp only [subFrame, targetFrame, Option.some.injEq] at hs
-        subst hs
-        simp only [useOK, decide_eq_true_eq] at huok
-        have := entry_lt (P := P) huok
-        exact ⟨by simp only [validFrame]; omega, by simp only [mu]; omega⟩
-      | selfMeth j => simp [subFrame, targetFrame] at hs
-      | clsSelf =>
+    | clsSelf =>
+      cases wh with
+      | fn => simp [subFrame, targetFrame] at hs
+      | meth o => simp [subFrame, targetFrame] at hs
+      | init r o ctx => simp [subFrame, targetFrame] at hs
+      | cmeth o =>
+        obtain ⟨_, _, ho, hM⟩ := hw
         simp only [subFrame, targetFrame, Option.some.injEq] at hs
         subst hs
         exact ⟨ho, by simp only [mu]; omega⟩
